@@ -6,6 +6,7 @@ import (
 	"fmt"
 	"math"
 	"math/rand"
+	"reflect"
 
 	"github.com/aldas/go-modbus-client/packet"
 	"verif/libx"
@@ -311,6 +312,50 @@ func (o *obs) str(v *view, addr, length int) {
 	}
 }
 
+// equiv: for the order values a caller can pass that are not among the documented seven (a word order without an
+// endianness: 4, 8, 12) no reference value is claimed - but the selected order still decides alone: reading through a view
+// whose default was set to o gives what the explicit-order accessor gives for o on an untouched view.
+func (o *obs) equiv(v *view, addr, length int) {
+	a := uint16(addr)
+	for _, po := range []packet.ByteOrder{4, 8, 12} {
+		rx, err := packet.NewRegisters(append([]byte{}, o.w.Data...), uint16(o.w.Start))
+		if err != nil {
+			return
+		}
+		rx.WithByteOrder(po)
+		pairs := []struct {
+			name     string
+			def, exp func() (any, error)
+		}{
+			{"String", func() (any, error) { return rx.String(a, uint8(length)) }, func() (any, error) { return v.regs[0].StringWithByteOrder(a, uint8(length), po) }},
+			{"Uint32", func() (any, error) { return rx.Uint32(a) }, func() (any, error) { return v.regs[0].Uint32WithByteOrder(a, po) }},
+			{"Int64", func() (any, error) { return rx.Int64(a) }, func() (any, error) { return v.regs[0].Int64WithByteOrder(a, po) }},
+			{"Float32", func() (any, error) { return rx.Float32(a) }, func() (any, error) { return v.regs[0].Float32WithByteOrder(a, po) }},
+		}
+		for _, pr := range pairs {
+			var d, e any
+			var de, ee error
+			p1, _ := mon.Catch(func() { d, de = pr.def() })
+			p2, _ := mon.Catch(func() { e, ee = pr.exp() })
+			o.r.Eval(1)
+			if p1 || p2 {
+				continue // panics are reported by the accessor checks
+			}
+			if f, ok := d.(float32); ok {
+				d = math.Float32bits(f)
+				if g, ok := e.(float32); ok {
+					e = math.Float32bits(g)
+				}
+			}
+			if (de == nil) != (ee == nil) || (de == nil && !reflect.DeepEqual(d, e)) {
+				o.r.Violate(o.c, "default-order-differs-from-explicit", mon.Attrs{"accessor": pr.name, "order": int(po)},
+					fmt.Sprintf("address %d: view.WithByteOrder(%d).%s gives %v (err %v), %sWithByteOrder(..., %d) on an untouched view gives %v (err %v)", addr, po, pr.name, d, de, pr.name, po, e, ee))
+				return
+			}
+		}
+	}
+}
+
 func run(ci any, r *mon.Rec) {
 	c := ci.(*Case)
 	rng := rand.New(rand.NewSource(c.Seed))
@@ -369,6 +414,9 @@ func run(ci any, r *mon.Rec) {
 				for _, a := range []int{c.Start, c.Start + c.Count - size, c.Start + c.Count - size + 1, c.Start - 1, c.Start + 1, c.Start + 32768, c.Start - 32768, c.Start + c.Count/2, rng.Intn(65536)} {
 					if a >= 0 && a <= 65535 {
 						o.str(v, a, length)
+						if pass == 0 && length%5 == 1 {
+							o.equiv(v, a, length)
+						}
 					}
 				}
 			}
